@@ -55,6 +55,11 @@ pub struct VarDesc {
     pub wmul:     bool,
     /// packed, read and written: the topmost field is only ever written
     pub top_w:    bool,
+    /// packed writes: 0 one field at a time (read-modify-write); 1 all fields in one store, the `or`s nested to the
+    /// left; 2 the same, nested to the right
+    pub wall:     usize,
+    /// packed writes: the source value is brought down by a right shift of this many bits before it is masked
+    pub pre:      usize,
 }
 
 impl VarDesc {
@@ -71,6 +76,8 @@ impl VarDesc {
             "src": self.src,
             "wmul": self.wmul,
             "top_w": self.top_w,
+            "wall": self.wall,
+            "pre": self.pre,
         })
     }
 
@@ -101,6 +108,8 @@ impl VarDesc {
             wmul: v["wmul"].as_bool().unwrap_or(false),
             // only meaningful for a variable that is both read and written
             top_w: v["top_w"].as_bool().unwrap_or(false) && v["access"].as_str().unwrap_or("rw") == "rw",
+            wall: v["wall"].as_u64().unwrap_or(0) as usize,
+            pre: v["pre"].as_u64().unwrap_or(0) as usize,
         })
     }
 }
@@ -230,11 +239,46 @@ fn read_code(v: &VarDesc) -> Vec<Vec<Item>> {
 fn write_code(v: &VarDesc) -> Vec<Vec<Item>> {
     let mut out = Vec::new();
     match v.kind {
+        Kind::Packed if v.wall > 0 => {
+            // every field in one store: f1 | f2 | ... with the `or`s nested to the left or to the right
+            let field = |i: usize, off: usize, w: usize| -> Vec<Item> {
+                let mut c = value_source(v.src, 4 + 32 * i as u8);
+                if v.pre > 0 {
+                    c.extend([p1(v.pre as u8), Item::Op(SHR)]);
+                }
+                c.extend([push_word(&mask_bits(w), 0), Item::Op(AND)]);
+                if off > 0 && v.wmul {
+                    let mut pow = [0u8; 32];
+                    pow[31 - off / 8] = 1 << (off % 8);
+                    c.extend([push_word(&pow, 0), Item::Op(0x02)]);
+                } else if off > 0 {
+                    c.extend(shift_by(off, v.style, SHL));
+                }
+                c
+            };
+            let mut c = Vec::new();
+            for (i, (off, w)) in v.fields.iter().enumerate() {
+                c.extend(field(i, *off, *w));
+                if v.wall == 1 && i > 0 {
+                    c.push(Item::Op(OR));
+                }
+            }
+            if v.wall != 1 {
+                for _ in 1..v.fields.len() {
+                    c.push(Item::Op(OR));
+                }
+            }
+            c.extend([push_word(&v.slot, v.width), Item::Op(SSTORE)]);
+            out.push(c);
+        }
         Kind::Packed => {
             for (off, w) in &v.fields {
                 let mut c = vec![push_word(&v.slot, v.width), Item::Op(SLOAD)];
                 c.extend([push_word(&shifted_inverse(*w, *off), 32), Item::Op(AND)]);
                 c.extend(value_source(v.src, 4));
+                if v.pre > 0 {
+                    c.extend([p1(v.pre as u8), Item::Op(SHR)]);
+                }
                 c.extend([push_word(&mask_bits(*w), 0), Item::Op(AND)]);
                 if *off > 0 && v.wmul {
                     let mut pow = [0u8; 32];
@@ -395,6 +439,11 @@ fn random_fields(rng: &mut StdRng) -> Vec<(usize, usize)> {
 pub fn random_var(rng: &mut StdRng, used: &mut Vec<[u8; 32]>) -> VarDesc {
     let mut v = random_var_raw(rng, used);
     v.top_w = v.top_w && v.access == "rw";
+    // several fields cut out of ONE environment value would be overlapping views of that value, which is not what
+    // a compiler emits for the fields of a struct: the fields of one store, and pre-shifted sources, come from call data
+    if v.wall > 0 || v.pre > 0 {
+        v.src = 0;
+    }
     v
 }
 
@@ -418,6 +467,8 @@ fn random_var_raw(rng: &mut StdRng, used: &mut Vec<[u8; 32]>) -> VarDesc {
         src: *[0usize, 0, 0, 1, 2, 3, 4].choose(rng).unwrap(),
         wmul: kind == Kind::Packed && rng.gen_bool(0.4),
         top_w: kind == Kind::Packed && rng.gen_bool(0.25),
+        wall: if kind == Kind::Packed { *[0usize, 0, 1, 2].choose(rng).unwrap() } else { 0 },
+        pre: if kind == Kind::Packed { *[0usize, 0, 0, 8, 64].choose(rng).unwrap() } else { 0 },
         kind,
     }
 }
